@@ -17,6 +17,9 @@ Extra productions ("idioms", each tags the program in `features`):
                   list of computed values or a local list of constants.
   const-assert    assert over constants (folds to `assert True`), assert over inputs that holds.
   shadow          a captured global re-bound locally before use; loop/comprehension targets re-binding a local.
+  tuple-idiom     (a, b) = tuple literal / tuple variable / helper result, partially constant, with `_` targets:
+                  loop-carried components read later in the body, arg-max / running-min-with-index (targets read
+                  only through the loop merge), an `if` inside an `if` or a loop (phi of a phi), while counters.
 
 All random choices go through the progen Chooser, so the generator is a pure function of the seed.
 """
@@ -149,6 +152,8 @@ class C07Gen(Gen):
             self._globals_read = set()
         if self._in_idiom == 0 and ch.bool(self.idiom_rate):
             opts = [(10, 'copy'), (10, 'const'), (8, 'dead'), (2, 'cassert'), (3, 'shadow')]
+            if self.p.tuples:
+                opts.append((9, 'tuple'))
             if self.p.lists:
                 opts += [(10, 'alias'), (3, 'copy-list')]
             k = ch.weighted(opts)
@@ -507,7 +512,7 @@ class C07Gen(Gen):
             args = [w if pt == 'L' else self.expr_R(fn, 0) for _, pt in h[1]]
             d = fn.fresh('d')
             store = f'{d} = {h[0]}({", ".join(args)})'
-            if shp == 'straight' and ch.bool(0.5):
+            if shp == 'straight' and h[2] == 'R' and ch.bool(0.5):
                 fn.env[d] = 'R'
             self.features.add('alias-store:helper')
             self.features.add('helper-call')
@@ -527,6 +532,141 @@ class C07Gen(Gen):
         self.features.add('alias-store:' + kind)
         if true_copy:
             self.features.add('alias-store:true-copy')
+        return True
+
+    # --- tuple destructuring in loops and nested branches -------------------------------------------
+    def idiom_tuple(self, fn, ind, depth, out, in_loop, in_with):
+        """`(a, b) = <tuple literal | tuple variable | helper result>` with loop-carried components, partially
+        constant right-hand sides, `_` targets, and targets that are read only through an outer merge
+        (arg-max / running-min-with-index, an `if` inside an `if`)."""
+        ch = self.ch
+        shapes = [(3, 'straight')]
+        if depth > 0:
+            shapes += [(7, 'carried'), (7, 'argmax'), (6, 'nested-if'), (3, 'if-in-loop')]
+            if fn.safe and self.p.while_loops:
+                shapes.append((3, 'while'))
+        sh = ch.weighted(shapes)
+        wrap = depth > 0 and ch.bool(0.6)           # under a statically known context, so that operations fold
+        j = ind
+        if wrap:
+            out.append(f'{ind}with {ch.choice(["fp.FP64", "fp.FP64", "fp.FP32", "fp.MPFloatContext(5, fp.RM." + self.rm() + ")", "fp.IEEEContext(5, 16, fp.RM." + self.rm() + ")"])}:')
+            j = ind + '    '
+        j2, j3 = j + '    ', j + '        '
+        helpers_T = [h for h in self.helpers if h[2] == 'T' and fn.is_main and all(pt == 'R' for _, pt in h[1])]
+
+        def rhs(e1, e2):
+            """the pair (e1, e2) as a literal, through a tuple variable (emitted at indent `at`), or from a helper"""
+            return f'({e1}, {e2})'
+
+        def destructure(at, a, b, e1, e2, allow_helper=True):
+            form = ch.weighted([(6, 'lit'), (3, 'var')] + ([(3, 'helper')] if helpers_T and allow_helper else []))
+            tgt = ch.choice([f'({a}, {b})', f'{a}, {b}'])
+            if form == 'lit':
+                out.append(f'{at}{tgt} = ({e1}, {e2})')
+            elif form == 'var':
+                t = fn.fresh('t')
+                out.append(f'{at}{t} = ({e1}, {e2})')
+                out.append(f'{at}{tgt} = {t}')
+            else:
+                h = ch.choice(helpers_T)
+                args = [e1, e2] + [self.expr_R(fn, 0) for _ in h[1]]
+                out.append(f'{at}{tgt} = {h[0]}({", ".join(args[:len(h[1])])})')
+                self.features.add('helper-call')
+                self.features.add('tuple:helper-result')
+            self.features.add('tuple:' + form)
+
+        cop = ch.choice(['+', '-', '*'])
+        if sh == 'straight':
+            a, b = fn.fresh('v'), fn.fresh('v')
+            destructure(j, a, ch.choice([b, '_']), self.expr_R(fn, 1), ch.choice([self.clit(), self.expr_R(fn, 1)]))
+            fn.env[a] = 'R'
+            u = fn.fresh('v')
+            out.append(f'{ind}{u} = {a} {cop} {self.expr_R(fn, 0)}')
+            fn.env[u] = 'R'
+        elif sh == 'carried':
+            # (a, b) = (a + 1.0, 2.0) in a loop: `a` is constant on the first iteration only; it is read later in the body
+            a, b, s_, i = fn.fresh('v'), fn.fresh('v'), fn.fresh('v'), fn.fresh('i')
+            out.append(f'{j}{a} = {ch.choice(["1.0", "0.0", "1", "2.5", "-0.0", self.clit()])}')
+            out.append(f'{j}{s_} = {ch.choice(["0.0", "0", self.expr_R(fn, 0)])}')
+            hdr = ch.choice([f'range({ch.int(1, 4)})', f'range({ch.int(2, 3)})'] + [l for l in self.vars_of(fn, 'L')][:1])
+            out.append(f'{j}for {i} in {hdr}:')
+            step = ch.choice([f'{a} + 1.0', f'{a} * 2', f'{a} - 0.5', f'-{a}', f'{a} + {self.clit()}'])
+            other = ch.choice([self.clit(), '2.0', self.expr_R(fn, 0)])
+            if ch.bool(0.5):
+                destructure(j2, a, b, step, other, allow_helper=False)
+            else:
+                destructure(j2, b, a, other, step, allow_helper=False)
+            out.append(f'{j2}{s_} = {s_} {cop} {ch.choice([f"{a} * {b}", a, f"{a} + {b}", f"{b} - {a}"])}')
+            fn.env[a] = 'R'
+            fn.env[s_] = 'R'
+            u = fn.fresh('v')
+            out.append(f'{ind}{u} = {ch.choice([s_, f"{s_} + {a}"])}')
+            fn.env[u] = 'R'
+        elif sh == 'argmax':
+            # running max / min with index: the targets are read only through the loop merge
+            best, idx, i, x = fn.fresh('v'), fn.fresh('v'), fn.fresh('i'), fn.fresh('i')
+            ls = self.vars_of(fn, 'L')
+            out.append(f'{j}{best} = {ch.choice(["-1.0", "0.0", "1e3", "-100", self.expr_R(fn, 0)])}')
+            out.append(f'{j}{idx} = {ch.choice(["-1.0", "-1", "0"])}')
+            if ls and ch.bool(0.75):
+                out.append(f'{j}for {i}, {x} in enumerate({ch.choice(ls)}):')
+                elem = x
+            else:
+                out.append(f'{j}for {i} in range({ch.int(1, 4)}):')
+                elem = f'({i} {ch.choice(["*", "-", "+"])} {self.expr_R(fn, 0)})'
+            out.append(f'{j2}if {elem} {ch.choice([">", "<", ">=", "<="])} {best}:')
+            second = ch.choice([i, i, f'{i} + 1', f'{idx} + 1'])
+            tgt2 = idx if ch.bool(0.85) else '_'
+            destructure(j3, best, tgt2, elem, second)
+            if ch.bool(0.3):
+                out.append(f'{j2}else:')
+                destructure(j3, best, idx, ch.choice([best, f'{best} {cop} 1']), idx, allow_helper=False)
+            fn.env[best] = 'R'
+            fn.env[idx] = 'R'
+            u = fn.fresh('v')
+            out.append(f'{ind}{u} = {ch.choice([idx, best, f"{idx} {cop} {best}", f"{idx} + 0"])}')
+            fn.env[u] = 'R'
+        elif sh in ('nested-if', 'if-in-loop'):
+            a, b = fn.fresh('v'), fn.fresh('v')
+            out.append(f'{j}{a} = {ch.choice(["0.0", self.clit(), self.expr_R(fn, 0)])}')
+            out.append(f'{j}{b} = {ch.choice(["0.0", self.clit(), self.expr_R(fn, 0)])}')
+            c1, c2 = self.expr_B(fn, 0), self.expr_B(fn, 0)
+            if ch.bool(0.4):
+                v = self.expr_R(fn, 0)
+                c1 = ch.choice([f'({v} == {v})', f'(not fp.isnan({v}))', f'({v} <= {v})'])
+            if sh == 'nested-if':
+                out.append(f'{j}if {c1}:')
+            else:
+                out.append(f'{j}for {fn.fresh("i")} in range({ch.int(1, 3)}):')
+            out.append(f'{j2}if {c2}:')
+            destructure(j3, a, b, self.expr_R(fn, 1), ch.choice([self.expr_R(fn, 1), self.clit(), f'{a} {cop} 1']))
+            if ch.bool(0.25):
+                out.append(f'{j2}else:')
+                destructure(j3, a, '_', self.expr_R(fn, 1), b, allow_helper=False)
+            fn.env[a] = 'R'
+            fn.env[b] = 'R'
+            u = fn.fresh('v')
+            out.append(f'{ind}{u} = {ch.choice([f"{a} {cop} {b}", a, b])}')
+            fn.env[u] = 'R'
+        elif sh == 'while':
+            acc, k = fn.fresh('v'), fn.fresh('k')
+            out.append(f'{j}{acc} = {ch.choice(["0.0", "1", self.expr_R(fn, 0)])}')
+            out.append(f'{j}{k} = {ch.int(0, 3)}')
+            out.append(f'{j}while {k} > 0:')
+            if ch.bool(0.5):
+                destructure(j2, acc, k, f'{acc} {cop} {ch.choice([k, self.expr_R(fn, 0), "2"])}', f'{k} - 1', allow_helper=False)
+            else:
+                destructure(j2, k, acc, f'{k} - 1', f'{acc} {cop} {ch.choice([k, self.expr_R(fn, 0), "2"])}', allow_helper=False)
+            fn.env[acc] = 'R'
+            fn.env[k] = 'R'
+            fn.protected.add(k)
+            u = fn.fresh('v')
+            out.append(f'{ind}{u} = {acc} + {k}')
+            fn.env[u] = 'R'
+            self.features.add('while')
+        self.features.add('tuple-destructure')
+        self.features.add('tuple-idiom')
+        self.features.add('tuple-idiom:' + sh)
         return True
 
     # --- asserts ------------------------------------------------------------------------
@@ -566,6 +706,12 @@ class C07Gen(Gen):
 
     # -- functions / program -----------------------------------------------------------------------
     def program(self) -> Program:
+        if self.p.tuples and self.ch.bool(0.5):
+            # a helper returning a pair, for `(a, b) = hp(x, i)`
+            deco = self.ch.choice(['@fp.fpy', '@fp.fpy', '@fp.fpy(ctx=fp.FP64)'])
+            body = self.ch.choice(['(p0, p1)', '(p0, p1 + 0)', '(p0 * 1, p1)', '(max(p0, p1), min(p0, p1))'])
+            self.lines += [deco, 'def hp(p0, p1):', f'    return {body}', '']
+            self.helpers.append(('hp', [('p0', 'R'), ('p1', 'R')], 'T', deco != '@fp.fpy', False, {}))
         prog = super().program()
         if self.use_globals:
             prog.src = GLOBAL_SRC + prog.src
